@@ -160,6 +160,11 @@ def o_c01(rec):
             if xb is not None and xb.shape == x.shape:
                 # x = x_best + step: rounding relative to the operands
                 tol = np.maximum(tol, 64.0 * EPS * np.abs(xb))
+                # an excess the centre already carries (it was judged, with
+                # the scale of ITS operands, when that point was generated)
+                # is inherited, not newly produced: the trial point must not
+                # be farther outside than its centre by more than rounding
+                tol = tol + np.maximum(np.maximum(xl - xb, xb - xu), 0.0)
         worst = float(np.max(exc / tol)) if exc.size else 0.0
         info["max_excess"] = max(info["max_excess"], worst)
         if worst > 1.0:
@@ -208,13 +213,24 @@ def o_c02(rec):
     else:
         if not feq(res.fun, 0.0):
             out.append(V("fun_mismatch", f"fun=None but res.fun={res.fun!r}"))
-    # maxcv
+    # maxcv: the user functions may be history dependent (fault plans keyed
+    # on the call index): every evaluation made at res.x with the returned
+    # objective value is a legitimate origin of the returned pair
     tv, slack = rec.true_maxcv(x)
     if tv is None:
         out.append(V("constraint_not_evaluated_at_x",
                      "some constraint function was never called at res.x"))
         return out, info
     mv = float(res.maxcv)
+    rows = [r for r in eval_table(rec) if r["ok"] and r["x"] is not None
+            and r["x"].tobytes() == x.tobytes() and feq(r["f"], res.fun)]
+    for r in rows:
+        if r["v"] is not None and (feq(mv, r["v"]) or (
+                math.isfinite(mv) and math.isfinite(r["v"]) and
+                abs(mv - r["v"]) <= r["slack"] + 4 * EPS * max(abs(mv),
+                                                               abs(r["v"])))):
+            tv, slack = r["v"], r["slack"]
+            break
     info["true_maxcv"] = tv
     if math.isnan(tv) or math.isinf(tv):
         info["nonfinite"] = True
@@ -279,7 +295,15 @@ def o_c03(rec, table=None):
             return out, info
         hist = [hist[k] for k in kept]
         info["finite_filter"] = True
-    ret = (cand[-1]["f"], cand[-1]["v"])
+    pick = cand[-1]
+    for q in cand:
+        if q["v"] is not None and (feq(q["v"], res.maxcv) or (
+                math.isfinite(q["v"]) and math.isfinite(res.maxcv) and
+                abs(q["v"] - res.maxcv) <= 1e3 * q["slack"] + 4 * EPS * max(
+                    abs(q["v"]), abs(res.maxcv)))):
+            pick = q
+            break
+    ret = (pick["f"], pick["v"])
     verdict, clause, msg = filt.judge(hist, pen, tol, ret, delta)
     info["clause"] = clause
     info["n_hist"] = len(hist)
